@@ -161,6 +161,10 @@ def dump_scalar(scalar, version=LATEST_VER):
             isinstance(scalar, int):
         return dump_decimal(scalar, version=version)
     elif isinstance(scalar, Grid):
+        if _pre_3_0(version):
+            raise ValueError('Project Haystack version %s ' \
+                             'does not support nested grids' \
+                             % version)
         return "<<" + dump_grid(scalar) + ">>"
     else:
         raise NotImplementedError('Unhandled case: %r' % scalar)
@@ -197,6 +201,10 @@ def dump_bin(bin_value, version=LATEST_VER):
 
 
 def dump_xstr(xstr_value, version=LATEST_VER):
+    if _pre_3_0(version):
+        raise ValueError('Project Haystack version %s ' \
+                         'does not support XStr' \
+                         % version)
     # The payload is a string literal: escape it like one.
     return '%s(%s)' % (xstr_value.encoding,
                        dump_str(xstr_value.data_to_string(), version=version))
